@@ -27,6 +27,9 @@ func checkC10(ctx *Ctx, r *Report) {
 	c10PythonMutableDefaults(ctx, r)
 	c10ThirdRound(ctx, r)
 	c08TypeListThroughWalkers(ctx, r)
+	c10NoBreakOutOfFieldLoops(ctx, r)
+	c10ConstantRefToEnum(ctx, r)
+	c10OpenAPITypedDefaults(ctx, r)
 	inProgressRestored(ctx, r, []string{"internal/jennies/golang/rawtypes.go", "internal/jennies/java/types.go"}, 2)
 }
 
@@ -1243,4 +1246,184 @@ func c10ThirdRound(ctx *Ctx, r *Report) {
 	} else {
 		r.Undecided("anchor lost: DisjunctionToType.processDisjunction")
 	}
+}
+
+// c10NoBreakOutOfFieldLoops: a loop that produces something for *every* field of a struct (defaults, constructor
+// arguments, assignments) must not be left by a `break`: inside an if / else-if chain of the loop body a `break` does not
+// leave the chain, it leaves the loop — the remaining fields silently get nothing. Loops that only search (the body
+// has no effect besides setting the result and leaving) are recognised by what follows the loop: a search loop's body
+// consists of one guarded statement block ending in the break.
+func c10NoBreakOutOfFieldLoops(ctx *Ctx, r *Report) {
+	fieldsF := astField(ctx, "StructType", "Fields")
+	n := 0
+	for _, p := range ctx.Pkgs {
+		if !strings.Contains(p.PkgPath, "/internal/jennies/") {
+			continue
+		}
+		info := p.TypesInfo
+		for _, file := range p.Syntax {
+			for _, d := range file.Decls {
+				fd, ok := d.(*ast.FuncDecl)
+				if !ok || fd.Body == nil {
+					continue
+				}
+				fobj, _ := info.Defs[fd.Name].(*types.Func)
+				parents := parentMap(fd)
+				ast.Inspect(fd.Body, func(m ast.Node) bool {
+					rs, ok := m.(*ast.RangeStmt)
+					if !ok || fieldOf(info, rs.X) != fieldsF {
+						return true
+					}
+					// a search loop: the whole body is `if cond { …; break }`
+					if len(rs.Body.List) == 1 {
+						if _, isIf := rs.Body.List[0].(*ast.IfStmt); isIf {
+							return true
+						}
+					}
+					n++
+					bad := token.NoPos
+					ast.Inspect(rs.Body, func(q ast.Node) bool {
+						br, ok := q.(*ast.BranchStmt)
+						if !ok || br.Tok != token.BREAK || br.Label != nil {
+							return true
+						}
+						// nearest enclosing breakable statement
+						for a := parents[ast.Node(br)]; a != nil; a = parents[a] {
+							switch a.(type) {
+							case *ast.ForStmt, *ast.SwitchStmt, *ast.TypeSwitchStmt, *ast.SelectStmt:
+								return true
+							case *ast.RangeStmt:
+								if a == ast.Node(rs) && !bad.IsValid() {
+									bad = br.Pos()
+								}
+								return true
+							}
+						}
+						return true
+					})
+					r.Check(!bad.IsValid(), "flow/no-break-out-of-field-loop", fmt.Sprintf("%s loop over %s", ctx.FuncName(fobj), exprString(rs.X)), rs.Pos(), "every field of the struct is processed",
+						fmt.Sprintf("%s leaves its loop over the struct's fields with the `break` at %s: written inside an if / else-if chain it does not leave the chain but the loop — the fields declared after the one that took this path get no default / constant / argument", ctx.FuncName(fobj), ctx.Pos(bad)))
+					return true
+				})
+			}
+		}
+	}
+	r.Count("loops of the jennies that process every field of a struct", n)
+	r.Floor("loops of the jennies that process every field of a struct", 10)
+}
+
+// c10ConstantRefToEnum: a constant reference names a member of an enum; every jenny resolves it by looking the value up
+// among the members. The CUE front-end builds one for `#Ref & value`: it must first establish that what it refers to is an
+// enum (an exit guard testing IsEnum before the constructor), otherwise `#Name & "fixed"` with `#Name: string` yields a
+// reference no jenny can resolve (Go: constant lost; Python: the bare word `unknown`).
+func c10ConstantRefToEnum(ctx *Ctx, r *Report) {
+	p := ctx.Pkg("internal/simplecue")
+	ctor := ctx.LookupFunc("internal/ast", "NewConstantReferenceType")
+	if p == nil || ctor == nil {
+		r.Undecided("anchor lost: simplecue / ast.NewConstantReferenceType")
+		return
+	}
+	info := p.TypesInfo
+	n := 0
+	for _, file := range p.Syntax {
+		for _, d := range file.Decls {
+			fd, ok := d.(*ast.FuncDecl)
+			if !ok || fd.Body == nil {
+				continue
+			}
+			fobj, _ := info.Defs[fd.Name].(*types.Func)
+			parents := parentMap(fd)
+			ast.Inspect(fd.Body, func(m ast.Node) bool {
+				c, ok := m.(*ast.CallExpr)
+				if !ok || callee(info, c) != ctor {
+					return true
+				}
+				n++
+				guarded := false
+				for _, ctl := range controllingIfs(parents, fd, c) {
+					if strings.Contains(exprString(ctl.Cond), "IsEnum()") {
+						guarded = true
+					}
+					ast.Inspect(ctl.Body, func(q ast.Node) bool {
+						if is, ok := q.(*ast.IfStmt); ok && strings.Contains(exprString(is.Cond), "IsEnum()") {
+							guarded = true
+						}
+						return true
+					})
+				}
+				r.Check(guarded, "frontier/constant-ref-to-enum", fmt.Sprintf("%s builds a constant reference", ctx.FuncName(fobj)), c.Pos(), "after establishing that the referred object is an enum",
+					fmt.Sprintf("%s builds a constant reference without testing that the referred object is an enum: `kind: #Name & \"fixed\"` with `#Name: string` becomes a reference to a member that does not exist — the Go constructor loses the constant, Python emits `unknown`", ctx.FuncName(fobj)))
+				return true
+			})
+		}
+	}
+	r.Count("constant references built by the CUE front-end", n)
+	r.Floor("constant references built by the CUE front-end", 1)
+}
+
+// c10OpenAPITypedDefaults: kin-openapi decodes every JSON number as a float64. Every default (and enum value) the
+// OpenAPI front-end copies into the IR has to go through typedValue, which gives it the type the schema declares;
+// otherwise an integer default reaches the jennies as a float (`1e+06` in Python, where Go has an int64).
+func c10OpenAPITypedDefaults(ctx *Ctx, r *Report) {
+	p := ctx.Pkg("internal/openapi")
+	san := ctx.LookupFunc("internal/openapi", "typedValue")
+	if p == nil || san == nil {
+		r.Undecided("anchor lost: openapi.typedValue")
+		return
+	}
+	info := p.TypesInfo
+	n := 0
+	for _, file := range p.Syntax {
+		for _, d := range file.Decls {
+			fd, ok := d.(*ast.FuncDecl)
+			if !ok || fd.Body == nil || fd.Name.Name == "typedValue" {
+				continue
+			}
+			if fd.Name.Name == "walkBoolean" || fd.Name.Name == "walkString" {
+				continue // their defaults are booleans / strings: no number to re-type
+			}
+			parents := parentMap(fd)
+			// values ranged out of schema.Enum
+			enumVals := map[types.Object]bool{}
+			ast.Inspect(fd.Body, func(m ast.Node) bool {
+				if rs, ok := m.(*ast.RangeStmt); ok && strings.HasSuffix(exprString(rs.X), ".Enum") {
+					if id, ok := rs.Value.(*ast.Ident); ok {
+						enumVals[info.Defs[id]] = true
+					}
+				}
+				return true
+			})
+			ast.Inspect(fd.Body, func(m ast.Node) bool {
+				var e ast.Expr
+				switch x := m.(type) {
+				case *ast.SelectorExpr:
+					f := fieldOf(info, x)
+					if f == nil || f.Name() != "Default" || f.Pkg() == nil || !strings.Contains(f.Pkg().Path(), "kin-openapi") {
+						return true
+					}
+					e = x
+				case *ast.KeyValueExpr:
+					if k, ok := x.Key.(*ast.Ident); ok && k.Name == "Value" {
+						if id, ok := ast.Unparen(x.Value).(*ast.Ident); ok && enumVals[objOf(info, id)] {
+							n++
+							r.Bad("frontier/openapi-typed-default", fmt.Sprintf("openapi.%s enum member value", fd.Name.Name), x.Pos(), "an enum member takes its value from the library as it is (a float64 for every number): it must go through typedValue")
+						}
+					}
+					return true
+				default:
+					return true
+				}
+				n++
+				through := false
+				if c, ok := parents[e].(*ast.CallExpr); ok && callee(info, c) == san {
+					through = true
+				}
+				r.Check(through, "frontier/openapi-typed-default", fmt.Sprintf("openapi.%s reads %s #%d", fd.Name.Name, exprString(e), n), e.Pos(), "through typedValue",
+					fmt.Sprintf("openapi.%s copies %s into the IR as kin-openapi decoded it: every number is a float64 there — an integer default of 1000000 is printed `1e+06` by the Python jenny and the two SDKs no longer agree", fd.Name.Name, exprString(e)))
+				return true
+			})
+		}
+	}
+	r.Count("defaults and enum values read by the OpenAPI front-end", n)
+	r.Floor("defaults and enum values read by the OpenAPI front-end", 5)
 }
